@@ -1746,7 +1746,11 @@ class SQLiteCompiler(compiler.SQLCompiler):
         action_text = ", ".join(action_set_ops)
         if clause.update_whereclause is not None:
             where_kw = dict(kw)
-            where_kw.update(include_table=True, use_schema=False)
+            # parametrized bindparams in DO UPDATE ... WHERE are per-row
+            # like those in SET; flag them too (see #13130)
+            where_kw.update(
+                include_table=True, use_schema=False, is_upsert_set=True
+            )
             action_text += " WHERE %s" % self.process(
                 clause.update_whereclause, **where_kw
             )
